@@ -42,7 +42,11 @@ def impl_op(cux, op):
         if k == 'mpt':
             return 'ok ' + show_pt(cux.make_pair_table(op[1], strand_break=op[2]))
         if k == 'ptdb':
-            return 'ok ' + cux.pair_table_to_dot_bracket(parse_pt(op[1]), strand_break=op[2], join=True)
+            joined = cux.pair_table_to_dot_bracket(parse_pt(op[1]), strand_break=op[2], join=True)
+            aslist = cux.pair_table_to_dot_bracket(parse_pt(op[1]), strand_break=op[2])          # default: list form
+            if ''.join(aslist) != joined:
+                return 'list-form-differs %r vs %r' % (''.join(aslist), joined)
+            return 'ok ' + joined
         if k == 'mst.str':
             return 'ok ' + '|'.join(''.join(x) for x in cux.make_strand_table(op[1], strand_break=op[2]))
         if k == 'mst.list':
@@ -242,3 +246,46 @@ def replay(body, repo):
     print('observed :', out)
     print('required :', body.get('required'))
     return 0 if out == body.get('required') else 1
+
+
+def handed_out_rotations(res, c, key, desc, request=False, ks=None):
+    """rotate(k) / rotate_pt(k) with an explicit number of turns: k entries, entry e is the e-th rotation of the CURRENT
+    representation (mod the number of strands), the same from both generators; with request=True, asking for the complex each
+    entry describes (under the object's name) gives the object itself (C02)."""
+    from .. import ref
+    import dsdobjects.utils as U
+    seq = [str(x) for x in c.sequence]
+    base = [(list(a), list(b)) for a, b in ref.rotations(seq, list(c.structure))]
+    n = len(base)
+    for k in (ks if ks is not None else sorted({2, n - 1, n + 1, n + 2, 2 * n + 1} - {0, -1})):
+        try:
+            g1 = [([str(x) for x in a], list(b)) for a, b in c.rotate(k)]
+            tabs = [(a, b) for a, b in c.rotate_pt(k)]
+            g2 = [([str(x) for x in U.strand_table_to_sequence(a)], list(U.pair_table_to_dot_bracket(b))) for a, b in tabs]
+        except Exception as e:
+            res.violation(key + ':explicit-turn-count-raises:' + type(e).__name__, dict(desc, turns=k), type(e).__name__, '%d rotations' % k); e = None
+            return False
+        want = [base[e % n] for e in range(k)]
+        if g1 != want or g2 != want:
+            res.violation(key + ':explicit-turn-count', dict(desc, turns=k),
+                          'rotate(%d) right: %s, rotate_pt(%d) right: %s' % (k, g1 == want, k, g2 == want),
+                          '%d entries, entry e = rotation e mod %d of the current representation, from both generators' % (k, n))
+            return False
+        if request:
+            for (a, b) in g1 + g2:
+                try:
+                    o = type(c)([x for x in _objs(c, a)], list(b), name=c.name)
+                except Exception as e:
+                    res.violation(key + ':handed-out-rotation-refused:' + type(e).__name__, dict(desc, turns=k), type(e).__name__, 'the object itself'); e = None
+                    return False
+                if o is not c:
+                    res.violation(key + ':handed-out-rotation-is-another-object', dict(desc, turns=k), repr(o), 'the object itself')
+                    return False
+    res.count('explicit_turn_counts_checked')
+    return True
+
+
+def _objs(c, names):
+    """the domain objects of complex c for a list of names ('+' kept)"""
+    d = {str(x): x for x in c.sequence if x != '+'}
+    return [x if x == '+' else d[x] for x in names]
